@@ -1322,6 +1322,9 @@ func AtomCall(atom string) ssa.CallInstruction {
 	return c
 }
 
+// AndLit conjoins a literal to a condition (terms that contradict it are dropped).
+func AndLit(d DNF, l Lit) DNF { return d.and(l) }
+
 // LastIf is the exported form of lastIf.
 func LastIf(b *ssa.BasicBlock) (*ssa.If, bool) { return lastIf(b) }
 
